@@ -242,6 +242,36 @@ def c16(ctx, rep):
             rep.violation("result under an unexhausted budget differs from the unbounded parse",
                           {"case": l, "bounded": rep.impl_obs.get(cid), "unbounded": impl2.get(cid)}, found=True)
     rep.cov["unexhausted_budget_pairs"] = len(unb)
+    # "under every combination of the other runtime options": a Statistics collector that has been used before (its
+    # ExprCnt is already beyond the budget).  The parse still has to return, having evaluated at most n expressions,
+    # and report the exhausted budget.
+    PRE = 1000000
+    used = []
+    for cid, l in rep.case_lines.items():
+        o = corr.case_opts(l)
+        if o["maxexpr"] > 0 and not corr.case_tmpl(l)[0] and "~" not in cid:
+            t = set_opt(l, 2, "1", "PS") or l.replace("(case " + cid + " ", "(case " + cid + "~PS ", 1)
+            used.append(t)
+    used = used[: ctx.q(300, 4000)]
+    hosts_ps = {k: v + " -prestats %d" % PRE for k, v in ctx.hosts().items()}
+    impl3 = corr.run_impl(ctx.sc, hosts_ps, used, 3000)
+    for l in used:
+        cid = corr.case_id(l)
+        io = impl3.get(cid, {})
+        n = corr.case_opts(l)["maxexpr"]
+        if io.get("out") in corr.NONTERM:
+            rep.violation("MaxExpressions(%d) with a used Statistics collector: Parse did not return (%s)" % (n, io.get("out")),
+                          {"case": l, "stats_exprcnt_before": PRE, "impl": io}, found=True)
+            continue
+        if not io.get("cnt"):
+            continue
+        done = int(io["cnt"]) - PRE
+        reported = any(m.endswith(MAXEXPR_MSG) for m in errs_of(io)) or \
+            (io.get("out", "").startswith("panic:") and bytes.fromhex(io["out"][6:]).decode("utf-8", "replace") == MAXEXPR_MSG)
+        if done > n + 1 or (done >= 1 and not reported):     # done == 0: nothing was evaluated (e.g. invalid entrypoint)
+            rep.violation("MaxExpressions(%d) with a used Statistics collector (ExprCnt %d before the parse): %d expressions evaluated, exhausted budget %sreported"
+                          % (n, PRE, done, "" if reported else "not "), {"case": l, "stats_exprcnt_before": PRE, "impl": io}, found=True)
+    rep.cov["used_statistics_collector_cases"] = len(used)
 
 def c16_classify(case_line, impl, model, problem):
     """Memoize(true) + budget + no return: the known uncharged-memo-hit divergence, provided the
